@@ -767,13 +767,16 @@ func unwrapIface(v ssa.Value) ssa.Value {
 // push on the other side.
 func rulesStackOps(c *Ctx, r *Report) {
 	outer := c.role("newick.traverse")
-	if outer == nil || len(outer.AnonFuncs) != 1 {
-		r.undecided("STACK-OPS", "formats/newick.(*Node).traverse", "anchor", "", "traverse with one iterator literal not found")
+	ib := c.iterBody(outer)
+	if ib == nil {
+		r.undecided("STACK-OPS", "formats/newick.(*Node).traverse", "anchor", "", "traverse with one iterator literal (or a method value) not found")
 		return
 	}
-	lit := outer.AnonFuncs[0]
-	where := fname(lit)
-	f, _, _ := c.delegatedBody(lit)
+	where := fname(outer) + "$1"
+	if ib.lit != nil {
+		where = fname(ib.lit)
+	}
+	f := ib.f
 	// the stack: a loop-header phi of slice-of-module-struct type
 	var phi *ssa.Phi
 	for _, b := range f.Blocks {
@@ -1010,9 +1013,22 @@ func rulesEntryPoints(c *Ctx, r *Report, rels ...string) {
 // rulesNoTranscoder (LAYER): the codec packages read and write the bytes as they are: no decompressor, archive or
 // character-set decoder is constructed there (decompression by file suffix belongs to gostuff aio.Open, behind File).
 func rulesNoTranscoder(c *Ctx, r *Report) {
+	bad, n := detectTranscoders(c, formatFuncs(c))
+	sort.Strings(bad)
+	pos := ""
+	r.check(len(bad) == 0, "LAYER", "formats/*", "bytes taken as they are", pos,
+		fmt.Sprintf("no decompressor or transcoder is constructed in the codec packages (%d static calls examined): what Reader decodes is the stream's own bytes, whatever they start with", n),
+		"a decompressor/transcoder is constructed in a codec package ("+strings.Join(bad, "; ")+"): the bytes decoded depend on what the content looks like, so records whose text happens to look like that are not read back")
+	withControl(r, "LAYER decompressor call", func(cc *Ctx, fs []*ssa.Function) int {
+		b, _ := detectTranscoders(cc, fs)
+		return len(b)
+	})
+}
+
+func detectTranscoders(c *Ctx, funcs []*ssa.Function) ([]string, int) {
 	var bad []string
 	n := 0
-	for _, f := range formatFuncs(c) {
+	for _, f := range funcs {
 		instrs(f, func(in ssa.Instruction) {
 			ci, ok := in.(ssa.CallInstruction)
 			if !ok {
@@ -1027,13 +1043,13 @@ func rulesNoTranscoder(c *Ctx, r *Report) {
 			if strings.HasPrefix(p, "compress/") || strings.HasPrefix(p, "archive/") || strings.HasPrefix(p, "golang.org/x/text") || p == "encoding/base64" {
 				bad = append(bad, qname(g)+" at "+c.pos(in.Pos()))
 			}
+			// looking ahead at, or skipping, bytes outside the decoder's own loop (byte-order marks, magic numbers)
+			if qn := qname(g); qn == "(*bufio.Reader).Peek" || qn == "(*bufio.Reader).Discard" {
+				bad = append(bad, qn+" at "+c.pos(in.Pos()))
+			}
 		})
 	}
-	sort.Strings(bad)
-	pos := ""
-	r.check(len(bad) == 0, "LAYER", "formats/*", "bytes taken as they are", pos,
-		fmt.Sprintf("no decompressor or transcoder is constructed in the codec packages (%d static calls examined): what Reader decodes is the stream's own bytes, whatever they start with", n),
-		"a decompressor/transcoder is constructed in a codec package ("+strings.Join(bad, "; ")+"): the bytes decoded depend on what the content looks like, so records whose text happens to look like that are not read back")
+	return bad, n
 }
 
 // rulesNoFloatToInt (NUM-KIND): in the given packages no floating-point value is converted to an integer: an
@@ -1043,12 +1059,27 @@ func rulesNoFloatToInt(c *Ctx, r *Report, rels ...string) {
 	for _, rel := range rels {
 		want[modPath+"/"+rel] = true
 	}
+	var fs []*ssa.Function
+	for _, f := range c.moduleFuncs() {
+		if want[funcPkgPath(f)] {
+			fs = append(fs, f)
+		}
+	}
+	bad, n := detectFloatToInt(c, fs)
+	sort.Strings(bad)
+	r.check(len(bad) == 0, "NUM-KIND", strings.Join(rels, ","), "no float-to-integer conversion", "",
+		fmt.Sprintf("no floating-point value is converted to an integer (%d conversions examined): integer columns are parsed and written as integers", n),
+		"a floating-point value is converted to an integer ("+strings.Join(bad, "; ")+"): integers beyond 2^53 do not survive, fractions are accepted and truncated")
+	withControl(r, "NUM-KIND float to int", func(cc *Ctx, cf []*ssa.Function) int {
+		b, _ := detectFloatToInt(cc, cf)
+		return len(b)
+	})
+}
+
+func detectFloatToInt(c *Ctx, funcs []*ssa.Function) ([]string, int) {
 	var bad []string
 	n := 0
-	for _, f := range c.moduleFuncs() {
-		if !want[funcPkgPath(f)] {
-			continue
-		}
+	for _, f := range funcs {
 		instrs(f, func(in ssa.Instruction) {
 			cv, ok := in.(*ssa.Convert)
 			if !ok {
@@ -1062,10 +1093,7 @@ func rulesNoFloatToInt(c *Ctx, r *Report, rels ...string) {
 			}
 		})
 	}
-	sort.Strings(bad)
-	r.check(len(bad) == 0, "NUM-KIND", strings.Join(rels, ","), "no float-to-integer conversion", "",
-		fmt.Sprintf("no floating-point value is converted to an integer (%d conversions examined): integer columns are parsed and written as integers", n),
-		"a floating-point value is converted to an integer ("+strings.Join(bad, "; ")+"): integers beyond 2^53 do not survive, fractions are accepted and truncated")
+	return bad, n
 }
 
 // rulesWriterErrOrigin (W-ERR): every error a Write method returns is nil, or the error of a call that was handed the
@@ -1550,4 +1578,223 @@ func backFill(c *Ctx, f *ssa.Function, s *symb) (bool, string, string) {
 		return false, "", fmt.Sprintf("the steps are written into a buffer of %s cells, filled from its end; a path through the table has up to bn + len(blocks)/bn - 2 steps (%s): for alignments with gaps on both sides the index runs below 0 and the call panics", L.String(), need.String())
 	}
 	return true, fmt.Sprintf("the steps are written from the end of a buffer of %s cells, which holds the longest path (bn + len(blocks)/bn - 2), and returned from the last index written", L.String()), ""
+}
+
+// rulesSplitters (SPLIT): how the package takes text apart is how the writer put it together: every call that splits a
+// string is strings.Split/SplitN on one of the writer's separators; Fields, FieldsFunc, regexp splitting and other
+// separators take apart (or glue together) what the writer did not.
+func rulesSplitters(c *Ctx, r *Report, rel string, seps ...string) {
+	allowed := map[string]bool{}
+	for _, s := range seps {
+		allowed[s] = true
+	}
+	n := 0
+	var bad []string
+	for _, f := range c.moduleFuncs() {
+		if funcPkgPath(f) != modPath+"/"+rel {
+			continue
+		}
+		instrs(f, func(in ssa.Instruction) {
+			cl, ok := in.(*ssa.Call)
+			if !ok || cl.Call.StaticCallee() == nil {
+				return
+			}
+			qn := qname(cl.Call.StaticCallee())
+			switch qn {
+			case "strings.Split", "strings.SplitN", "bytes.Split", "bytes.SplitN":
+				n++
+				sep, ok := constStr(cl.Call.Args[1])
+				if !ok {
+					if cv, isCv := cl.Call.Args[1].(*ssa.Convert); isCv {
+						sep, ok = constStr(cv.X)
+					}
+				}
+				if !ok || !allowed[sep] {
+					bad = append(bad, fmt.Sprintf("%s on %q at %s", qn, sep, c.pos(cl.Pos())))
+				}
+			case "strings.Fields", "strings.FieldsFunc", "bytes.Fields", "bytes.FieldsFunc", "strings.SplitAfter", "strings.SplitAfterN",
+				"(*regexp.Regexp).Split", "(*regexp.Regexp).FindAllString", "(*regexp.Regexp).FindAllStringIndex":
+				n++
+				bad = append(bad, qn+" at "+c.pos(cl.Pos()))
+			}
+		})
+	}
+	sort.Strings(bad)
+	r.check(len(bad) == 0, "SPLIT", rel, "text is split on the writer's separators only", "",
+		fmt.Sprintf("every splitting call of the package (%d) is Split/SplitN on one of %q", n, seps),
+		"text is taken apart other than on the writer's separators: "+strings.Join(bad, "; ")+" — values the writer emits (a '-' sign, a blank, an empty item) are cut or dropped")
+	r.floor("SPLIT-"+rel, n, 1, "splitting calls in "+rel)
+}
+
+// rulesTracePanics (PANIC-SET): the only explicit panics of the traceback functions are their two consistency checks —
+// the table index below 0, and (Local) a negative score at the current cell. Any other panic is a claim about the
+// table that alignments with some matrix will not meet.
+func rulesTracePanics(c *Ctx, r *Report) {
+	n := 0
+	for _, spec := range []struct{ name, role string }{{"Global", "align.traceGlobal"}, {"Local", "align.traceLocal"}} {
+		root := c.role(spec.role)
+		if root == nil {
+			r.undecided("PANIC-SET", "align."+spec.name, "anchor", "", "trace function not found")
+			continue
+		}
+		for _, f := range c.stageFuncs(root) {
+			s := newSymb(f)
+			instrs(f, func(in ssa.Instruction) {
+				pn, ok := in.(*ssa.Panic)
+				if !ok {
+					return
+				}
+				n++
+				r.analysed(fname(f))
+				ok2, why := pathsAllTake(pn.Block(), func(l edgeLit, _ bool) (string, bool) {
+					bo, isBin := l.cond.(*ssa.BinOp)
+					if !isBin {
+						return "", false
+					}
+					// index < 0  (an integer that is not a length)
+					if x, kind, k, okc := cmpCanon(l); okc && kind == "le" && k == -1 && lenOperand(x) == nil {
+						if bt, ok := x.Type().Underlying().(*types.Basic); ok && bt.Info()&types.IsInteger != 0 {
+							return "table index below 0", true
+						}
+					}
+					// blocks[i].score < 0
+					e := s.expr(bo)
+					if l.pos && (strings.HasPrefix(e.String(), "(load(P0[") && strings.HasSuffix(e.String(), "].f0) < 0)")) {
+						return "negative score at the current cell", true
+					}
+					return "", false
+				})
+				pos := c.pos(pn.Pos())
+				if pos == "" {
+					pos = c.pos(returnPos(pn.Block(), pn))
+				}
+				r.check(ok2, "PANIC-SET", fname(f), "explicit panic", pos, "behind a consistency check of the table: "+why,
+					"an explicit panic that is not behind `index < 0` or `score < 0` at the current cell: it asserts something about the table that does not hold for every substitution matrix, so some alignments panic")
+			})
+		}
+	}
+	r.floor("PANIC-SET", n, 2, "explicit panics in the two traceback functions (3 today)")
+}
+
+// rulesFillAllCells (FILL-ALL): the loop that fills the table visits every cell: it is left only through its own
+// counting test — no break, no early return (a cell that is not filled keeps score 0 and is never an optimum).
+func rulesFillAllCells(c *Ctx, r *Report) {
+	n := 0
+	for _, name := range []string{"Global", "Local"} {
+		entry := c.fn("align", name)
+		if entry == nil {
+			r.undecided("FILL-ALL", "align."+name, "anchor", "", "function not found")
+			continue
+		}
+		dec := c.role("align.decideOnStep")
+		for _, f := range c.stageFuncs(entry) {
+			// the loop that contains the call of decideOnStep
+			var header *ssa.BasicBlock
+			if dec != nil {
+				for _, cl := range staticCallsTo(f, dec) {
+					for _, b := range f.Blocks {
+						if lp := naturalLoop(b); len(lp) > 1 && lp[cl.Block()] {
+							if header == nil || len(lp) > len(naturalLoop(header)) {
+								header = b
+							}
+						}
+					}
+				}
+			}
+			if header == nil {
+				continue
+			}
+			n++
+			r.analysed(fname(f))
+			loop := naturalLoop(header)
+			var exits []string
+			for b := range loop {
+				for _, su := range b.Succs {
+					if loop[su] || blockAlwaysPanics(su) {
+						continue
+					}
+					if b == header {
+						continue // the loop's own test
+					}
+					// rotated loops test at the latch: an exit from a block whose other successor is the header's body
+					// entry counts as the loop's own test when it compares the loop counter
+					if iff, ok := lastInstr(b).(*ssa.If); ok {
+						if bo, ok := iff.Cond.(*ssa.BinOp); ok {
+							isCounter := false
+							for _, v := range []ssa.Value{bo.X, bo.Y} {
+								if add, ok := v.(*ssa.BinOp); ok && add.Op == token.ADD {
+									if ph, ok := add.X.(*ssa.Phi); ok && ph.Block() == header {
+										isCounter = true
+									}
+								}
+							}
+							if isCounter {
+								continue
+							}
+						}
+					}
+					exits = append(exits, c.pos(returnPos(b, lastInstr(b))))
+				}
+			}
+			sort.Strings(exits)
+			r.check(len(exits) == 0, "FILL-ALL", fname(f), "the fill loop visits every cell", c.pos(header.Instrs[0].Pos()),
+				"the loop that fills the table is left only through its own counting test",
+				fmt.Sprintf("the fill loop can be left early at %v: the cells after that point are never computed, a better alignment there is missed", dedupe(exits)))
+		}
+	}
+	r.floor("FILL-ALL", n, 2, "fill loops of Global and Local")
+}
+
+// rulesNCBITokens (TOKENS): rows are cut into tokens by the regular expression \S+ — ASCII-agnostic "runs of
+// non-space" as the regexp package defines \s (space, \t \n \v? no: [\t\n\f\r ]) — for the header and for the value
+// rows alike; Unicode-aware splitters (strings.Fields) cut at bytes of the table's single-byte alphabet.
+func rulesNCBITokens(c *Ctx, r *Report, rd *ssa.Function) {
+	where := fname(rd)
+	n := 0
+	var bad []string
+	fns := []*ssa.Function{rd}
+	for _, g := range c.calleesIn(rd) {
+		if g.Pkg == rd.Pkg && g.Blocks != nil {
+			fns = append(fns, g)
+		}
+	}
+	for _, f := range fns {
+		instrs(f, func(in ssa.Instruction) {
+			cl, ok := in.(*ssa.Call)
+			if !ok || cl.Call.StaticCallee() == nil {
+				return
+			}
+			switch qn := qname(cl.Call.StaticCallee()); qn {
+			case "(*regexp.Regexp).FindAllString":
+				n++
+				pat := ""
+				if mk, ok := cl.Call.Args[0].(*ssa.Call); ok && fnIs(mk.Call.StaticCallee(), "regexp", "MustCompile") {
+					pat, _ = constStr(mk.Call.Args[0])
+				} else if ld, ok := cl.Call.Args[0].(*ssa.UnOp); ok {
+					// a package-level pattern compiled once
+					if g, ok := ld.X.(*ssa.Global); ok {
+						for init := range c.initFuncsOf("formats/smtext") {
+							instrs(init, func(in2 ssa.Instruction) {
+								if st, ok := in2.(*ssa.Store); ok && st.Addr == ssa.Value(g) {
+									if mk, ok := st.Val.(*ssa.Call); ok && fnIs(mk.Call.StaticCallee(), "regexp", "MustCompile") {
+										pat, _ = constStr(mk.Call.Args[0])
+									}
+								}
+							})
+						}
+					}
+				}
+				if pat != `\S+` {
+					bad = append(bad, fmt.Sprintf("FindAllString with pattern %q at %s", pat, c.pos(cl.Pos())))
+				}
+			case "strings.Fields", "strings.FieldsFunc", "strings.Split", "strings.SplitN", "(*regexp.Regexp).Split":
+				n++
+				bad = append(bad, qn+" at "+c.pos(cl.Pos()))
+			}
+		})
+	}
+	sort.Strings(bad)
+	r.check(len(bad) == 0 && n >= 1, "TOKENS", where, "rows are cut by \\S+", c.pos(rd.Pos()),
+		fmt.Sprintf("every row is cut into tokens by the regular expression \\S+ (%d call sites): header and value rows alike, whatever single bytes the alphabet uses", n),
+		"rows are cut into tokens other than by the regular expression \\S+: "+strings.Join(bad, "; ")+" — a Unicode-aware splitter treats bytes of a single-byte alphabet (0x0B, 0x85, 0xA0 …) as separators or glues tokens")
 }
